@@ -40,7 +40,7 @@ def run(chk):
         "frees its pool slot and hands a wake-up on (shared with C07)."
     )
     chk.not_decided = "the numeric bound `timeout + rounding`; absence of residual tasks at quiescence in every schedule."
-    chk.explanation += " Also decided: one ceil_timeout(timeout.connect) scope instance covers both the pool wait and the connection attempt; a leaving requester never cancels the shared DNS lookup."
+    chk.explanation += " Also decided: one ceil_timeout(timeout.connect) scope instance covers both the pool wait and the connection attempt; a leaving requester never cancels the shared DNS lookup. After the defect hunt: the read timer is armed while waiting for 100 Continue and re-armed after interim responses; a cancelled upload aborts the transport; the shared drain waiter is shielded; the proxy CONNECT exchange is under sock_connect."
     # ---- scope.sock ---------------------------------------------------------------------------------------------
     n = 0
     for q, pats in (("TCPConnector._wrap_create_connection", ("aiohappyeyeballs.start_connection(...)", "create_connection(self._loop, ...)")),
